@@ -44,6 +44,13 @@ func main() {
 			}
 			fmt.Fprintln(w, h.RunCase(line))
 		}
+	case "cold":
+		// one cold start of the concurrent pipelines (C18); the race detector of harness-race reports to stderr
+		fs := flag.NewFlagSet("cold", flag.ExitOnError)
+		seed := fs.Uint64("seed", 1, "")
+		repo := fs.String("repo", "/repo", "")
+		fs.Parse(os.Args[2:])
+		fmt.Println(h.ColdStart(*seed, *repo))
 	case "facts":
 		fs := flag.NewFlagSet("facts", flag.ExitOnError)
 		repo := fs.String("repo", "/repo", "")
